@@ -25,7 +25,7 @@ TECHNIQUE = ("bounded exhaustive enumeration of terminal behaviours plus "
 RULE = ("all (start, error flag, target, per-transition delay 0..k, ack delay "
         "0..1, error at status read n or never) with k=1,n<=5 (quick) / "
         "k=3,n<=8 (thorough) are enumerated, plus Hypothesis cases with delays "
-        "up to 6 and occasionally 40-300; the real Terminal.to_operational runs against a simulated "
+        "up to 6 and occasionally 40-4100; the real Terminal.to_operational runs against a simulated "
         "terminal; non-trivial = at least one state request was written; "
         "distinct by the whole case")
 ASSUMPTIONS = [
@@ -51,7 +51,10 @@ def enumerate_cases(tier):
                "delays": [d1, d2, d3], "ack_delay": ack, "error_at": at,
                "latency": 0,
                # AL status bit 5 set in half of the enumerated behaviours
-               "id_loaded": (d1 + d2 + d3 + ack) % 2 == 1}
+               "id_loaded": (d1 + d2 + d3 + ack) % 2 == 1,
+               # ... and an error flag that comes with status code 0 in a third
+               "err_code": 0 if (start + d1 + 2 * d2 + ack) % 3 == 0
+               else 0x1b}
 
 
 def strategy(tier):
@@ -62,12 +65,14 @@ def strategy(tier):
         # now and then a transition takes hundreds of polls
         "delays": st.lists(st.integers(0, 6) | st.integers(0, 6)
                            | st.sampled_from([40, 99, 100, 101, 150, 255, 256,
-                                              300]),
+                                              300, 999, 1000, 1001, 1500,
+                                              4100]),
                            min_size=3, max_size=3),
         "ack_delay": st.integers(0, 2),
         "error_at": st.none() | st.integers(1, 20),
         "latency": st.integers(0, 3),
         "id_loaded": st.booleans(),
+        "err_code": st.sampled_from([0x1b, 0x1b, 0, 0x11, 0x8000]),
     })
 
 
@@ -75,7 +80,11 @@ def run_case(case):
     term = simbus.TerminalModel(station=77)
     term.al_state = case["start"]
     term.al_error = case["error"]
-    term.al_code = 0x1b if case["error"] else 0
+    # the AL status code that comes with an error flag may be anything,
+    # also 0 ("no error" / unspecified)
+    code = case.get("err_code", 0x1b)
+    term.al_code = code if case["error"] else 0
+    term.al_error_code = code
     delays = case["delays"]
 
     def delay(frm, to):
@@ -125,7 +134,7 @@ def run_case(case):
         server.cancel()
 
     try:
-        simloop.run(go, budget=400000)
+        simloop.run(go, budget=3000000)
     except simloop.LoopStalled:
         outcome["result"] = "deadlock"
     except simloop.BudgetExceeded:
